@@ -20,6 +20,8 @@ type sop struct {
 	X   uint32 `json:"x,omitempty"`
 	CC  bool   `json:"cc,omitempty"`
 	F   int    `json:"f,omitempty"`
+	S   int    `json:"s,omitempty"`
+	N2  int    `json:"n2,omitempty"`
 }
 
 type seqScript struct {
@@ -35,7 +37,12 @@ func genSeq(r *core.Rng, engine int) *seqScript {
 	for i := 0; i < n; i++ {
 		o := genOp(r, r.Chance(1, 3))
 		so := sop{K: o.K, N: o.N, X: o.X, CC: o.CC, Ref: -1}
-		if (o.K == kInst || o.K == kInstBin) && r.Chance(1, 3) {
+		if so.K == kInst && r.Chance(1, 4) {
+			so.K = kInstBin
+		}
+		if so.K == kInstBin && r.Chance(2, 3) { // start function outcome
+			so.S, so.X, so.N2 = 1+r.Intn(nStart-1), uint32(r.Intn(3)), r.Intn(2)
+		} else if (so.K == kInst || so.K == kInstBin) && r.Chance(1, 3) {
 			so.F = 1 + r.Intn(2) // holds an open file; for half of them its Close fails
 		}
 		switch o.K {
@@ -80,6 +87,7 @@ func replaySeq(s *seqScript) *seqRun {
 	h := &hist{stamp: true, engine: s.Engine}
 	h.rt = wazero.NewRuntimeWithConfig(bg, rtConfig(s.Engine))
 	defer h.rt.Close(bg)
+	instantiateEnv(h.rt)
 	var err error
 	if s.FS {
 		if _, err = wasi_snapshot_preview1.Instantiate(bg, h.rt); err != nil {
@@ -95,11 +103,12 @@ func replaySeq(s *seqScript) *seqRun {
 	}
 	var st mstate
 	failing := map[int]bool{}
+	boom := map[int]bool{}
 	results := make([]api.Module, len(s.Ops))
 	ids := map[api.Module]int{}
 	var recs []rec
 	for i, o := range s.Ops {
-		sp := opSpec{K: o.K, N: o.N, X: o.X, CC: o.CC, F: o.F}
+		sp := opSpec{K: o.K, N: o.N, X: o.X, CC: o.CC, F: o.F, S: o.S, N2: o.N2}
 		var hs []api.Module
 		if o.K == kClose || o.K == kCloseX || o.K == kIsClosed {
 			if o.Ref < 0 || o.Ref >= i || results[o.Ref] == nil {
@@ -109,7 +118,7 @@ func replaySeq(s *seqScript) *seqRun {
 		}
 		var bin []byte
 		if o.K == kInstBin || o.K == kCompile {
-			bin = uniqueBin(i + 1)
+			bin = guestBin(i+1, o.S, o.X, o.N2)
 		}
 		r := h.exec(1, sp, &hs, bin)
 		recs = append(recs, r)
@@ -135,6 +144,12 @@ func replaySeq(s *seqScript) *seqRun {
 				failing[id] = true
 			}
 		}
+		if r.kind == kInstBin {
+			lo.S, lo.N2 = o.S, o.N2
+		}
+		if r.res == rOK && (r.kind == kInstBin || (r.kind == kInst && !s.FS)) {
+			boom[id] = true // instances of the harness's guests export "boom"
+		}
 		lo.fill()
 		run.trace = append(run.trace, lo)
 		run.ops[kindName[r.kind]+"="+resName[r.res]]++
@@ -155,6 +170,24 @@ func replaySeq(s *seqScript) *seqRun {
 			got = rNone // Close may report the failing resource's error; its effect is the same
 		}
 		want := expect(st, r.kind, r.name, id)
+		peer := 0
+		if r.kind == kInstBin && o.S != sNone && !st.closed {
+			// imports are resolved before the name is checked; the start function runs after registration
+			peer = int(st.names[o.N2])
+			switch {
+			case o.S == sCallPeer && (peer == 0 || !boom[peer]):
+				want = rOtherErr // no such instance / no such export: nothing happens
+				if r.res == rOtherErr {
+					got = rOtherErr
+				}
+			case want != rOK:
+			case o.S == sTrap, o.S != sReturn && o.X != 0:
+				// closing the calling module with a non-zero code makes the call fail with that exit error too
+				want = rStartFail
+			case o.S != sReturn:
+				want = rOKClosed
+			}
+		}
 		wantText := resName[want]
 		bad := got != want
 		if r.kind == kLookup && !bad && want == rMod && uint8(id) != st.names[r.name] {
@@ -172,8 +205,19 @@ func replaySeq(s *seqScript) *seqRun {
 				Text: fmt.Sprintf("%s returned %s %s, a sequential registry returns %s", lo.String(), resName[r.res], r.err, wantText)}
 			return run
 		}
+		if r.res == rOtherErr && want == rOtherErr {
+			continue // failed import: no effect
+		}
 		if next := step(relax{}, st, pin{kind: r.kind, name: r.name, id: id}, pout{res: r.res, id: id}); len(next) == 1 {
 			st = next[0]
+		}
+		if (r.res == rOKClosed || r.res == rStartFail) && id != 0 {
+			if next := step(relax{}, st, pin{kind: r.kind, name: r.name, id: id, phase: 2}, pout{res: r.res, id: id}); len(next) == 1 {
+				st = next[0]
+			}
+			if o.S == sCallPeer && peer != 0 { // the peer exited itself
+				st = step(relax{}, st, pin{kind: kClose, id: peer, name: anon}, pout{res: rNone})[0]
+			}
 		}
 	}
 	var none []api.Module
@@ -263,19 +307,40 @@ func shrink(s *seqScript, d *divergence) (*seqScript, *seqRun) {
 			}
 		}
 	}
-	for changed := true; changed; {
-		changed = false
-		for i := len(cur.Ops) - 1; i >= 0; i-- {
-			c := &seqScript{Engine: cur.Engine, FS: cur.FS, Ops: without(cur.Ops, i)}
-			if r := same(c); r != nil {
-				if r.div.At < len(c.Ops) {
-					c.Ops = c.Ops[:r.div.At+1]
+	ddmin := func() {
+		for changed := true; changed; {
+			changed = false
+			for i := len(cur.Ops) - 1; i >= 0; i-- {
+				c := &seqScript{Engine: cur.Engine, FS: cur.FS, Ops: without(cur.Ops, i)}
+				if r := same(c); r != nil {
+					if r.div.At < len(c.Ops) {
+						c.Ops = c.Ops[:r.div.At+1]
+					}
+					cur, best, changed = c, r, true
+					break
 				}
-				cur, best, changed = c, r, true
+			}
+		}
+	}
+	ddmin()
+	// start functions: a host function raising the exit error if the peer is not needed; exit code 1 for any non-zero one
+	for i := range cur.Ops {
+		if cur.Ops[i].S == sNone {
+			continue
+		}
+		for _, alt := range []sop{{S: sPanicExit, X: min(cur.Ops[i].X, 1)}, {S: cur.Ops[i].S, X: min(cur.Ops[i].X, 1)}} {
+			if alt.S == cur.Ops[i].S && alt.X == cur.Ops[i].X {
+				continue
+			}
+			c := &seqScript{Engine: cur.Engine, FS: cur.FS, Ops: append([]sop(nil), cur.Ops...)}
+			c.Ops[i].S, c.Ops[i].X = alt.S, alt.X
+			if r := same(c); r != nil && r.div.At == best.div.At {
+				cur, best = c, r
 				break
 			}
 		}
 	}
+	ddmin()
 	simpler := map[opKind]opKind{kInstBin: kInst, kHostInst: kInst, kCloseX: kClose, kHostComp: kCompile}
 	for i := range cur.Ops {
 		if k, ok := simpler[cur.Ops[i].K]; ok {
@@ -346,6 +411,12 @@ func canonSeq(h []lop) string {
 				}
 				c.Name = names[c.Name]
 			}
+			if c.S == sCallPeer {
+				if _, ok := names[c.N2]; !ok {
+					names[c.N2] = len(names)
+				}
+				c.N2 = names[c.N2]
+			}
 		}
 		if c.ID != 0 {
 			if _, ok := ids[c.ID]; !ok {
@@ -368,7 +439,7 @@ func seqOfHistory(engine int, h []lop) *seqScript {
 	s := &seqScript{Engine: engine}
 	producer := map[int]int{}
 	for _, o := range h {
-		so := sop{K: o.Kind, N: o.Name, X: o.X, Ref: -1, F: o.F}
+		so := sop{K: o.Kind, N: o.Name, X: o.X, Ref: -1, F: o.F, S: o.S, N2: o.N2}
 		if o.Kind == kClose || o.Kind == kCloseX || o.Kind == kIsClosed {
 			p, ok := producer[o.ID]
 			if !ok {
@@ -379,7 +450,7 @@ func seqOfHistory(engine int, h []lop) *seqScript {
 		if o.Kind == kCloseX && so.X == 0 {
 			so.X = 1
 		}
-		if o.Kind.isInst() && o.Res == rOK {
+		if o.registers() {
 			producer[o.ID] = len(s.Ops)
 		}
 		s.Ops = append(s.Ops, so)
